@@ -10,6 +10,10 @@ exist independently of any text.  For every writer route of xtuml/persist.py
     pparts    persist_schema / persist_instances / persist_unique_identifiers to three files, load_metamodel([...])
     dispatch  xtuml.serialize(metamodel) and the per-resource dispatch serialize(class|association|instance)
     inferred  the INSERT statements only (no CREATE TABLE): attribute types are guessed from the values
+    unset-relink  twelve fixed models of the OPEN FINDING `unset-referential-relinks` (an unrelated referrer with an unset
+              INTEGER / REAL / BOOLEAN referential attribute, an instance of the referred class carrying the type default
+              as identifying value); D reports exactly that difference under the finding's signature, any other link
+              difference stays `<route>:reload-differs`
     regen     (every third random model, file routes) TWO GENERATIONS AT ONE PATH: after the files were written and loaded,
               values of plain attributes are changed through the API so that the text keeps its size, the model is
               persisted to the SAME paths at once and loaded by new loaders; then once more with a change of size
@@ -103,6 +107,27 @@ def _sweep_specs():
         yield {'classes': classes, 'assocs': assocs, 'rows': rows, 'links': links, 'int_rel_ids': bool(i % 2)}
 
 
+def _unset_relink_specs():
+    """OPEN FINDING `unset-referential-relinks`, generated on purpose: an UNRELATED referrer whose INTEGER / REAL / BOOLEAN
+    referential attribute is unset, while an instance of the referred class carries the type default 0 / 0.0 / False as
+    identifying value.  The writers print the unset attribute as that default, the loader does not treat it as null, the
+    reload links the two.  Variants: other rows and a genuinely related pair next to them; a composite key."""
+    for ty, dflt, other in (('INTEGER', 0, 5), ('REAL', 0.0, 2.5), ('BOOLEAN', False, True), ('integer', 0, -3)):
+        for variant in range(3):
+            b = {'kind': 'B', 'attrs': [['Id', ty]], 'idents': [['I1', ['Id']]], 'roles': ['key']}
+            a = {'kind': 'A', 'attrs': [['N', 'INTEGER'], ['B_Id', ty]], 'idents': [], 'roles': ['plain', 'ref']}
+            rows = [{'ci': 0, 'vals': [dflt]}, {'ci': 1, 'vals': [7, None]}]
+            links = []
+            if variant >= 1:
+                rows += [{'ci': 0, 'vals': [other]}, {'ci': 1, 'vals': [8, None]}]
+                links.append({'assoc': 0, 'src': 3, 'tgt': 2})
+            if variant == 2:
+                rows.append({'ci': 1, 'vals': [9, None]})          # a second unrelated referrer
+            assocs = [{'rel': 1, 'src': {'ci': 1, 'keys': ['B_Id'], 'many': True, 'cond': True, 'phrase': ''},
+                       'tgt': {'ci': 0, 'keys': ['Id'], 'many': False, 'cond': True, 'phrase': ''}}]
+            yield {'classes': [b, a], 'assocs': assocs, 'rows': rows, 'links': links, 'int_rel_ids': False}
+
+
 def _mk_case(spec, rng, tag, regen=False):
     perm = [0, 1, 2]
     rng.shuffle(perm)
@@ -120,6 +145,8 @@ def generate(ctx):
         if ctx.quick() and i % 3 != ctx.seed % 3:
             continue
         yield _mk_case(spec, rng, 'sweep')
+    for spec in _unset_relink_specs():
+        yield _mk_case(spec, rng, 'unset-relink')
     n = ctx.pick(650, 9000)
     for i in range(n):
         r = ctx.rng.fork('model', i)
@@ -302,6 +329,43 @@ def _two_generations(x, spec, built, paths, perm2, fail, stats):
                      'from the model just written at %s' % (name, edits, gen, d))
 
 
+_DEFAULTS = {'INTEGER': 0, 'REAL': 0.0, 'BOOLEAN': False}
+
+
+def _only_unset_relinks(x, m, d0, d2):
+    """is the ONLY difference between the dump of the original `m` and that of its reload the open finding
+    `unset-referential-relinks`?  I.e. everything but the links is equal, no link was lost, and every link gained joins a
+    referrer all of whose referential attributes for that association were unset (INTEGER / REAL / BOOLEAN) to an instance
+    whose identifying values are the type defaults 0 / 0.0 / False."""
+    def strip(d):
+        return {'classes': d['classes'], 'assocs': [{k: v for k, v in a.items() if k not in ('links', 'links_back')} for a in d['assocs']]}
+    if gen_schema.diff(strip(d0), strip(d2)) or len(d0['assocs']) != len(d2['assocs']):
+        return False
+    gained = 0
+    for a0, a2 in zip(d0['assocs'], d2['assocs']):
+        for key in ('links', 'links_back'):
+            l0 = set(map(lambda p: (tuple(p[0]), tuple(p[1])), a0[key]))
+            l2 = set(map(lambda p: (tuple(p[0]), tuple(p[1])), a2[key]))
+            if l0 - l2:
+                return False
+            for (sk, si), (tk, ti) in l2 - l0:
+                src = m.metaclasses[sk].storage[si]
+                tgt = m.metaclasses[tk].storage[ti]
+                smc, tmc = m.metaclasses[sk], m.metaclasses[tk]
+                for sname, tname in zip(a0['src'][1], a0['tgt'][1]):
+                    sty = dict((n.upper(), t.upper()) for n, t in smc.attributes).get(sname.upper())
+                    tty = dict((n.upper(), t.upper()) for n, t in tmc.attributes).get(tname.upper())
+                    if sty not in _DEFAULTS or tty not in _DEFAULTS:
+                        return False
+                    if getattr(src, sname) is not None:
+                        return False
+                    tv = getattr(tgt, tname)
+                    if tv is None or isinstance(tv, str) or tv != _DEFAULTS[tty]:
+                        return False
+                gained += 1
+    return gained > 0
+
+
 def _file_load(x, path):
     l = x.ModelLoader()
     l.filename_input(path)
@@ -376,8 +440,13 @@ def run_impl(case):
             fail('%s:reload-raises:%s' % (name, type(e).__name__),
                  'route %s: loading the written text raised %s: %s' % (name, type(e).__name__, str(e)[:300]))
             continue
-        diff = gen_schema.diff(d0, gen_schema.dump(x, m2))
-        if diff:
+        d2 = gen_schema.dump(x, m2)
+        diff = gen_schema.diff(d0, d2)
+        if diff and _only_unset_relinks(x, m, d0, d2):
+            stats['unset_relinks'] = 1
+            fail('unset-referential-relinks', 'route %s: an unrelated referrer with an unset INTEGER / REAL / BOOLEAN referential '
+                 'attribute is linked after the reload to the instance that carries the type default as identifying value: %s' % (name, diff))
+        elif diff:
             fail('%s:reload-differs' % name, 'route %s: the reloaded metamodel differs from the original at %s' % (name, diff))
         # fixed point after one round
         if writer == 'skip':
